@@ -138,7 +138,7 @@ pub fn run(tier: Tier) -> Report {
             }
             rep.acc.merge(acc);
             base += special.len() as u64;
-            let acc = par_chunks(total, 1 << 14, |acc, lo, hi| {
+            let acc = par_chunks_varied(total, 1 << 14, |acc, lo, hi| {
                 let px: Vec<[f32; 3]> = (lo..hi).map(|i| [g[(i / (gl * gl)) as usize], g[((i / gl) % gl) as usize], g[(i % gl) as usize]]).collect();
                 check(acc, p, to709, base + lo, &px);
                 if lo == 0 && p == CP::P3DCI {
